@@ -155,3 +155,48 @@ def num_arg(value, variant=0):
     if variant == 3 and v == float('{:.6f}'.format(v)):
         return '{:.6f}'.format(v)
     return repr(v)
+
+
+def num_form(value, variant=0):
+    """The same number in one of the forms a caller of the Python functions may use:
+    float, int when whole, numpy float64"""
+    import numpy as np
+
+    v = float(value)
+    variant = variant % 3
+    if variant == 1 and v.is_integer() and abs(v) < 1e15:
+        return int(v)
+    if variant == 2:
+        return np.float64(v)
+    return v
+
+
+class library_logging:
+    """What a caller of the Python functions may have done before calling them: logging
+    configured at a given level (DEBUG shows every diagnostic message spowtd can emit).
+    Messages go to a sink; the previous configuration is restored afterwards."""
+
+    def __init__(self, level_name='DEBUG'):
+        import logging
+
+        self.logging = logging
+        self.level = getattr(logging, level_name)
+
+    def __enter__(self):
+        root = self.logging.root
+        self.saved = (root.level, root.handlers[:])
+        for handler in root.handlers[:]:
+            root.removeHandler(handler)
+        self.sink = self.logging.StreamHandler(io.StringIO())
+        root.addHandler(self.sink)
+        root.setLevel(self.level)
+        return self
+
+    def __exit__(self, *exc_info):
+        root = self.logging.root
+        root.removeHandler(self.sink)
+        level, handlers = self.saved
+        for handler in handlers:
+            root.addHandler(handler)
+        root.setLevel(level)
+        return False
